@@ -86,12 +86,31 @@ def gen_case(r, res, tier):
     return "%d | %s" % (seed, " | ".join(scripts)), scripts, die
 
 
+def gen_tmpdir_case(r, res):
+    """Threads that each write a bulky stream (jumbo events, several flushes) and free it at about
+    the same time: with OVNI_TMPDIR set the relocations run concurrently."""
+    n = r.choice([2, 3, 4, 6])
+    scripts = []
+    for i in range(n):
+        ops = ["init"]
+        for j in range(r.randrange(2, 6)):
+            ln = r.choice([40000, 150000, 600000, 1500000])
+            ops.append("jumbo 4a%02x%02x now %d %d -" % (0x41 + i, 0x61 + j, ln, r.randrange(256)))
+            if r.random() < 0.5:
+                ops.append("ev 4f422e now")
+        ops += ["flush", "free"]
+        scripts.append(" ; ".join(ops))
+    res.dist("case:tmpdir-bulk")
+    res.dist("threads:%d" % n)
+    return "%d | %s" % (r.randrange(1, 2**31), " | ".join(scripts)), scripts, None
+
+
 def parse_case(line):
     parts = [p.strip() for p in line.split("|")]
     return line.strip(), parts[1:], None
 
 
-def run_mt_cases(res, prep, cases, tag, tsan_cases=0):
+def run_mt_cases(res, prep, cases, tag, tsan_cases=0, env_extra=None):
     """cases: [(line, scripts, die)]. Real multi-threaded run vs single-threaded
     reference (real library) vs drv_rt / drv_conc (Lean). Returns found."""
     found = False
@@ -111,7 +130,7 @@ def run_mt_cases(res, prep, cases, tag, tsan_cases=0):
             ref = os.path.join(d, "r%d" % b)
             os.makedirs(sub)
             os.makedirs(ref)
-            out, err = c11_lib.run_mt(h_mt, sub, [c[0] for c in chunk])
+            out, err = c11_lib.run_mt(h_mt, sub, [c[0] for c in chunk], env_extra=env_extra)
             flat = [s for c in chunk for s in c[1]]
             rout, rerr = rt_lib.run_scripts(h_st, ref, flat)
             fi = 0
@@ -199,7 +218,7 @@ def run_mt_cases(res, prep, cases, tag, tsan_cases=0):
             nrep, nrun = 0, 0
             for b in range(0, len(tc), 10):
                 chunk = tc[b:b + 10]
-                out, err = c11_lib.run_mt(h_ts, sub, [c[0] for c in chunk], verbose=True)
+                out, err = c11_lib.run_mt(h_ts, sub, [c[0] for c in chunk], verbose=True, env_extra=env_extra)
                 nrun += len(chunk)
                 reps = c11_lib.tsan_reports(err)
                 nrep += len(reps)
@@ -353,6 +372,13 @@ def check(res, tier, replay=None):
             n = 160 if quick else 4000
             cases = [gen_case(r, res, tier) for _ in range(n)]
             found |= run_mt_cases(res, prep, cases, "c11", tsan_cases=(30 if quick else 500) * (3 if not proved else 1))
+            # the same isolation requirement in relocation mode (OVNI_TMPDIR): every thread's
+            # ovni_thread_free copies its stream to the final directory while the others do the
+            # same; bulky streams so that the copies overlap (seeded C01-7: a function-static
+            # copy buffer in move_thread_to_final)
+            tcases = [gen_tmpdir_case(r, res) for _ in range(24 if quick else 400)]
+            found |= run_mt_cases(res, prep, tcases, "c11-tmpdir", tsan_cases=(6 if quick else 60),
+                                  env_extra={"RT_TMPDIR": "1"})
         for b in res.cov.get("correspondence_breaks", [])[:3]:
             proved = False
             res.failed_obligations = getattr(res, "failed_obligations", []) + ["correspondence: " + b["what"] + " on: " + b["case"][:200]]
